@@ -888,6 +888,10 @@ func clSyncer(ro, enabled, storeOK bool, out *AreaOut) (string, error) {
 	}
 	fail := func(clause, desc string) {
 		out.Oracle = append(out.Oracle, OracleFailure{"C12", clause, desc, map[string]any{"receive_only": ro, "cleanup_enabled": enabled, "store_ok": storeOK, "calls": b.log}})
+		if clause == "committed-after-store" {
+			// the same fact is the guard of C05's CleanStale step: committed := lastBy only after a successful Store
+			out.Oracle = append(out.Oracle, OracleFailure{"C05", "committed-only-after-store", desc + " — a stale instance's last snapshot could then be deleted although no uploaded snapshot contains its data", map[string]any{"receive_only": ro, "cleanup_enabled": enabled, "store_ok": storeOK, "calls": b.log}})
+		}
 	}
 	out.OracleN++
 	if !before.IsZero() {
